@@ -17,6 +17,19 @@ let run_line (line : string) : unit =
     let fin = if List.exists (fun (n, _) -> n = "n") s1.store then "ok" else "absent" in
     let left = String.concat "," (List.map (fun _ -> "upload") s1.uploads) in
     Printf.printf "%s up %s body=%s final=%s leftovers=%s\n" case k kind fin left
+  | _ :: case :: "tail" :: step :: evs ->
+    (* the replay of every proper tail of the log: events after position k, for every k *)
+    let parse e =
+      match String.split_on_char ':' e with
+      | ["C"; f] -> Some (FCreate f)
+      | ["D"; f] -> Some (FDelete f)
+      | ["M"; ab] -> (match String.split_on_char '>' ab with [a; b] -> Some (FMove (a, b)) | _ -> None)
+      | _ -> None in
+    let pe = List.filter_map parse evs in
+    let rec drop n l = if n = 0 then l else match l with [] -> [] | _ :: r -> drop (n - 1) r in
+    List.iteri (fun k _ ->
+      let set = freduce String.equal (drop (k + 1) pe) in
+      Printf.printf "%s %s tail %d %s\n" case step k (String.concat " " (List.sort compare set))) pe
   | _ :: case :: step :: evs when step <> "up" ->
     let parse e =
       match String.split_on_char ':' e with
